@@ -264,7 +264,7 @@ static const PDef ENDS[] = {
   {"G1", 20, -30}, {"G2", 50, 70}, {"G3", -45, 120},
   // thorough tier only
   {"G4", -60, -120}, {"G5", 10, 179}, {"G6", 75, -165}, {"G7", 89.9, 0},
-  {"G8", -10, -60}, {"G9", 35, 140}, {"GA", -75, 100}, {"GB", 60, -40}, {"M4", -60, 10}, {"GC", 20.5, -29.5},
+  {"G8", -10, -60}, {"G9", 35, 140}, {"GA", -75, 100}, {"GB", 60, -35}, {"M4", -60, 10}, {"GC", 20.5, -29.5},
 };
 static const int NEALL = sizeof(ENDS) / sizeof(ENDS[0]);
 static int NE = 10;
